@@ -519,6 +519,9 @@ func genScenario(g *Gen, pf scnProfile) Case {
 		if g.Chance(pf.pForce, 100) {
 			st["force"] = true
 		}
+		if g.Chance(15, 100) {
+			st["verbose"] = true
+		}
 		if g.Chance(pf.pFault, 100) {
 			st["fault"] = float64(1 + g.Intn(9))
 		} else if g.Chance(pf.pCrash, 100) {
